@@ -384,7 +384,7 @@ class Env(object):
             ex = out[1]()
             call['raised'] = ex
             raise ex
-        value = copy.deepcopy(out[1]) if self.fresh_copies else out[1]
+        value = copy.deepcopy(out[1]) if (self.fresh_copies and not call.get('outcome_override')) else out[1]
         call['returned'] = value
         call['returned_set'] = True
         return value
@@ -832,6 +832,10 @@ class Interp(object):
             env.run.fault('unserializable_value')
         if fault == 'copy_fails':
             call['outcome_override'] = ('value', D.CopyFails(7))
+            env.run.fault('copy_fails')
+        if getattr(env, 'copy_fails_everywhere', False):
+            # (a value that cannot even be encoded: the copy fails and so does the save - nothing undecodable is stored)
+            call['outcome_override'] = ('value', D.Unserializable(7))
             env.run.fault('copy_fails')
         call['args'] = (args, kwargs)
         note = None
